@@ -25,7 +25,7 @@ def _configs(tier):
             ("ties", "flat", "I_7_8", False, 1, 12),
             ("ties", "tight_then_loose", "I_1", True, 1, 12),
             ("dense", "valley", "I_7_8", False, 4, 12),
-            ("remainder", "loose_then_tight", "I_1_2", True, F(1, 4), 12),
+            ("remainder", "loose_then_tight", "I_1_2", True, F(1, 4), 10),
             ("mixed", "valley", "I_1", False, 1, 12),
             ("sparse", "valley", "I_7_8", True, F(1, 4), 12),
             ("ties", "valley", "PI_7_8", False, 1, 9),
